@@ -279,6 +279,36 @@ fn main() {
             let reference = if rng.chance(1, 2) { vec![] } else { vec![1, 2, 3, 4] };
             out.dec(&reference, &data);
         }
+        // 4. the size cap is cumulative: several runs that fit one by one but not together
+        if shard == 0 {
+            const CAP: u64 = 129 * (2 + u16::MAX as u64);
+            let varint = |mut x: u64| {
+                let mut v = Vec::new();
+                loop {
+                    let b = (x & 0x7F) as u8;
+                    x >>= 7;
+                    if x == 0 { v.push(b); break; }
+                    v.push(b | 0x80);
+                }
+                v
+            };
+            let fill = |len: u64, ones: bool| varint((len << 2) | 1 | if ones { 2 } else { 0 });
+            let reference: Vec<u8> = (0..129u32).map(|i| (i * 7 % 251) as u8).collect();
+            let lit: Vec<u8> = { let mut v = varint(129 << 1); v.extend((0..129u32).map(|i| i as u8)); v };
+            let cases: Vec<Vec<u8>> = vec![
+                [fill(CAP, true), fill(CAP, true)].concat(),
+                [fill(CAP, false), fill(129, true)].concat(),
+                [fill(CAP - 129, true), fill(258, false)].concat(),
+                [fill(CAP / 2 + 1, true), fill(CAP / 2 + 1, true)].concat(),
+                [fill(CAP - 258, false), fill(129, true), fill(258, true)].concat(),
+                [lit.clone(), fill(CAP, true)].concat(),
+                [fill(CAP, true), lit.clone()].concat(),
+                [fill(CAP - 129, true), lit.clone(), fill(129, false)].concat(),
+            ];
+            for c in &cases {
+                out.dec(&reference, c);
+            }
+        }
     }
     out.req.flush().unwrap();
     out.imp.flush().unwrap();
